@@ -24,7 +24,7 @@ from engine.effects import iter_functions, own_nodes
 from engine.stream import PrintGrammar
 from .shared import models, rule_skeleton
 from .fusion import FusionEngine, fusion_rule, K, desc
-from .c20 import guard_transcriptions
+from .c20 import guard_transcriptions, guard_tokens
 
 RESTRICTED = ('return', 'throw', 'break', 'continue')
 POSITION_ATTRS = ('lexpos', 'lineno', 'colno', '_token_map')
@@ -133,7 +133,8 @@ def r015(report, M):
 
 def run(report, index, tier):
     M = models(index)
-    guard_transcriptions(index, M)
+    guard_transcriptions(index, M, report, 'R01.7',
+                         depth=4 if tier == 'thorough' else 3, strict=False)
     report.explanation = (
         'Round-trip induction decided premise by premise on tables: '
         'skeleton agreement of definitions and productions, absence of '
@@ -142,6 +143,7 @@ def run(report, index, tier):
         'inside restricted productions, position independence of the '
         'emitted text.')
     rule_skeleton(report, index, 'R01.1')
+    guard_tokens(report, index, M, 'R01.6')
     E = FusionEngine(index)
     handlers = E.table('indent', indent_str='  ')
     handled = {k.name for k in handlers if not isinstance(k, tuple)}
